@@ -357,6 +357,71 @@ def minmax_trailing(ctx):
                                 break
 
 
+def missing_weights(ctx):
+    """The rule of C04 for these statistics when a WEIGHT is missing: a row whose weight is missing is a row that is
+    missing - whatever placeholder the caller left under the False validity (NaN, a large number, a negative sentinel).
+    Metamorphic on the real code: statistic(facts, weights=(g, wvalid)) must mark the same cells missing and report the same
+    values as statistic(facts with those rows marked missing in every column, weights = g with the placeholders replaced by
+    1.0, all valid) - under both policies, in both report formats."""
+    from catii import xcube
+    rng = ctx.rng
+    for rep in range(ctx.n(18)):
+        N = rng.choice([5, 8, 12])
+        K = rng.choice([None, None, 2, 3])
+        dims = [np.array([rng.randrange(2) for _ in range(N)], dtype=np.int64) for _ in range(rng.choice([0, 1, 1, 2]))]
+        shape = (N,) if K is None else (N, K)
+        fv = np.array([rng.choice([0.5, 1.0, 2.0, 3.5, -1.0, 4.0]) for _ in range(int(np.prod(shape)))], dtype=float).reshape(shape)
+        fok = np.array([rng.random() < 0.85 for _ in range(int(np.prod(shape)))], dtype=bool).reshape(shape)
+        g = np.array([rng.choice([0.5, 1.0, 2.0, 3.0]) for _ in range(N)], dtype=float)
+        wok = np.array([rng.random() < 0.75 for _ in range(N)], dtype=bool)
+        if wok.all():
+            wok[rng.randrange(N)] = False
+        placeholder = (float("nan"), 777.0, -999.0, -1.0)[rep % 4]
+        gp = g.copy()
+        gp[~wok] = placeholder
+        g1 = g.copy()
+        g1[~wok] = 1.0
+        fok2 = fok & (wok if K is None else wok[:, None])
+        stats = ["stddev", "quantile"] + (["covariance"] if K is not None else [])
+        for stat in stats:
+            for ign in (False, True):
+                desc = {"missing_weights": True, "stat": stat, "ignore_missing": ign, "N": N, "K": K, "dims": [d.tolist() for d in dims],
+                        "facts": fv.tolist(), "fact_valid": fok.tolist(), "weights": [None if np.isnan(x) else x for x in gp.tolist()],
+                        "weight_valid": wok.tolist()}
+                ctx.case(desc, nontrivial=True)
+                ctx.hit("missing_weights:%s:%s" % (stat, "nan" if np.isnan(placeholder) else placeholder))
+
+                def run(facts, weights, r):
+                    xc = xcube([d.copy() for d in dims])
+                    if stat == "quantile":
+                        return xc.quantile(facts, 0.5, weights=weights, ignore_missing=ign, return_missing_as=r)
+                    return getattr(xc, stat)(facts, weights=weights, ignore_missing=ign, return_missing_as=r)
+                try:
+                    a_nan, a_pair = call2(lambda r: run((fv.copy(), fok.copy()), (gp.copy(), wok.copy()), r))
+                except Exception as e:
+                    ctx.oracle_fail("%s with a missing weight (placeholder %r, ignore_missing=%s) raised %s: %s" % (
+                        stat, placeholder, ign, type(e).__name__, str(e)[:80]), desc, cls="C18-%s-raises" % stat)
+                    continue
+                try:
+                    b_nan, b_pair = call2(lambda r: run((fv.copy(), fok2.copy()), g1.copy(), r))
+                except Exception as e:
+                    ctx.hit("missing_weights_reference_raised:" + type(e).__name__)
+                    continue
+                if not formats_agree(ctx, stat, a_nan, a_pair, desc):
+                    continue
+                a_nan, b_nan = np.asarray(a_nan, dtype=float), np.asarray(b_nan, dtype=float)
+                if a_nan.shape != b_nan.shape or not np.array_equal(np.isnan(a_nan), np.isnan(b_nan)):
+                    ctx.oracle_fail("%s (ignore_missing=%s): with weights missing at rows %s (placeholder %r) the missing cells are %s; "
+                                    "with those rows marked missing instead they are %s" % (
+                                        stat, ign, np.nonzero(~wok)[0].tolist(), placeholder, np.isnan(a_nan).astype(int).tolist(),
+                                        np.isnan(b_nan).astype(int).tolist()), desc, cls="C18-%s-missing" % stat)
+                    continue
+                ok = ~np.isnan(a_nan)
+                if not all(close(float(x), float(y)) for x, y in zip(a_nan[ok].ravel(), b_nan[ok].ravel())):
+                    ctx.oracle_fail("%s (ignore_missing=%s): a missing weight (placeholder %r) changes the values of cells: %s vs %s" % (
+                        stat, ign, placeholder, a_nan.tolist(), b_nan.tolist()), desc, cls="C18-%s-value" % stat)
+
+
 def pooled_statistics(ctx):
     """the same statistics with the cube's worker pool engaged (a dimension with several columns gives several sub-cubes
     filled by different workers through the SAME xfunc object): each cell must still hold the statistic of its own rows.
@@ -453,6 +518,7 @@ def run(ctx):
         check(ctx, case, reqs, pend)
     pooled_statistics(ctx)
     minmax_trailing(ctx)
+    missing_weights(ctx)
     if ctx.oracle_only:
         return
     from fractions import Fraction
